@@ -75,7 +75,7 @@ PROPS = {
         "assumptions": COMMON_ASSUMPTIONS + ["the vAMM is driven through its public execute/query entry points on cosmwasm-std mock dependencies"],
     },
     "C15": {
-        "lean_modules": ["Perp.Props.C15", "Perp.Props.EngineGuards", "Perp.Props.C15Band", "Perp.Props.SatTrace", "Perp.Props.SatFlows", "Perp.Props.SatC15", "Perp.Props.SatEWitness", "Perp.Props.SatE", "Perp.Props.C15Requote", "Perp.Props.Capstone", "Perp.Props.MonitorSound", "Perp.Props.CapstoneTx", "Perp.Props.MonitorTxSound"],
+        "lean_modules": ["Perp.Props.C15", "Perp.Props.EngineGuards", "Perp.Props.C15Band", "Perp.Props.SatTrace", "Perp.Props.SatFlows", "Perp.Props.SatC15", "Perp.Props.SatEWitness", "Perp.Props.SatE", "Perp.Props.C15Requote", "Perp.Props.Capstone", "Perp.Props.MonitorSound", "Perp.Props.CapstoneTx", "Perp.Props.MonitorTxSound", "Perp.Props.GhostSound"],
         "runs": lambda tier, seed: [vamm_run(tier, seed)] + world_runs(tier, seed),
         "rule": VAMM_RULE,
         "assumptions": COMMON_ASSUMPTIONS,
@@ -113,7 +113,7 @@ PROPS = {
         "rule": WORLD_RULE, "assumptions": WORLD_ASSUMPTIONS,
     },
     "C08": {
-        "lean_modules": ["Perp.Props.Dispatch", "Perp.Props.WorldInv", "Perp.Props.SatA", "Perp.Props.Capstone", "Perp.Props.MonitorSound", "Perp.Props.CapstoneTx", "Perp.Props.MonitorTxSound", "Perp.Props.CapLedger", "Perp.Props.FaultAtomic", "Perp.Props.FuelEnough"],
+        "lean_modules": ["Perp.Props.Dispatch", "Perp.Props.WorldInv", "Perp.Props.SatA", "Perp.Props.Capstone", "Perp.Props.MonitorSound", "Perp.Props.CapstoneTx", "Perp.Props.MonitorTxSound", "Perp.Props.CapLedger", "Perp.Props.FaultAtomic", "Perp.Props.FuelEnough", "Perp.Props.SatWithdrawExact"],
         "runs": lambda tier, seed: world_runs(tier, seed) + fault_runs(tier, seed),
         "rule": WORLD_RULE, "assumptions": WORLD_ASSUMPTIONS,
     },
@@ -128,7 +128,7 @@ PROPS = {
         "rule": WORLD_RULE, "assumptions": WORLD_ASSUMPTIONS,
     },
     "C14": {
-        "lean_modules": ["Perp.Props.VammGuards", "Perp.Props.EngineGuards", "Perp.Props.WorldInv", "Perp.Props.SatF09", "Perp.Props.SatF14", "Perp.Props.SatF", "Perp.Props.Capstone", "Perp.Props.MonitorSound", "Perp.Props.CapstoneTx", "Perp.Props.MonitorTxSound", "Perp.Props.SatExtra3", "Perp.Props.SatExtra4"],
+        "lean_modules": ["Perp.Props.VammGuards", "Perp.Props.EngineGuards", "Perp.Props.WorldInv", "Perp.Props.SatF09", "Perp.Props.SatF14", "Perp.Props.SatF", "Perp.Props.Capstone", "Perp.Props.MonitorSound", "Perp.Props.CapstoneTx", "Perp.Props.MonitorTxSound", "Perp.Props.SatExtra3", "Perp.Props.SatExtra4", "Perp.Props.GhostRegSound"],
         "runs": lambda tier, seed: world_runs(tier, seed) + [vamm_run(tier, seed, 600, 10000)],
         "rule": WORLD_RULE, "assumptions": WORLD_ASSUMPTIONS,
     },
@@ -160,7 +160,7 @@ PROPS = {
         "rule": WORLD_RULE + "; plus three runs biased to the profit-taking / empty-vault / liquidation campaign; plus the vAMM unit stream (the 10 % spread-limit query at oracle prices exactly at, one unit below and one unit above the threshold)", "assumptions": WORLD_ASSUMPTIONS,
     },
     "C07": {
-        "lean_modules": ["Perp.Props.LiqTwin", "Perp.Props.EngineGuards", "Perp.Props.SatDBase", "Perp.Props.SatDC07", "Perp.Props.SatDWitness", "Perp.Props.SatD", "Perp.Props.Capstone", "Perp.Props.MonitorSound", "Perp.Props.CapstoneTx", "Perp.Props.MonitorTxSound", "Perp.Props.SatDC07Partial"],
+        "lean_modules": ["Perp.Props.LiqTwin", "Perp.Props.EngineGuards", "Perp.Props.SatDBase", "Perp.Props.SatDC07", "Perp.Props.SatDWitness", "Perp.Props.SatD", "Perp.Props.Capstone", "Perp.Props.MonitorSound", "Perp.Props.CapstoneTx", "Perp.Props.MonitorTxSound", "Perp.Props.SatDC07Partial", "Perp.Props.GhostRegSound"],
         "runs": lambda tier, seed: world_runs(tier, seed, q=1200, qn=8) + pump_runs(tier, seed),
         "rule": WORLD_RULE + "; plus three runs biased to the profit-taking / empty-vault / liquidation campaign", "assumptions": WORLD_ASSUMPTIONS,
     },
